@@ -473,6 +473,63 @@ func (w *saoWorld) migrate(mut string) {
 	w.r.Migrate(signer, p.Bech(), data)
 }
 
+// faults: reports and recoveries about completed shards, by fishmen, ordinary nodes and non-nodes
+func (w *saoWorld) faults(mut string) {
+	rng := w.rng
+	var cands []ordertypes.Shard
+	for _, sh := range w.ctxShards() {
+		if sh.Status == ordertypes.ShardCompleted {
+			cands = append(cands, sh)
+		}
+	}
+	if len(cands) == 0 {
+		return
+	}
+	sh := cands[rng.Intn(len(cands))]
+	ord, found := w.c.App.OrderKeeper.GetOrder(w.c.deliverCtx(), sh.OrderId)
+	if !found {
+		return
+	}
+	fishman := w.providers[0]
+	if rng.Intn(2) == 0 {
+		fishman = w.gateways[1]
+	}
+	reporter := fishman
+	switch mut {
+	case "ordinary-node":
+		reporter = w.providers[3]
+	case "non-node":
+		reporter = w.owners[0].acct
+	}
+	f := &saotypes.Fault{DataId: ord.DataId, OrderId: ord.Id, ShardId: sh.Id, CommitId: "nocommit", Provider: sh.Sp, Reporter: reporter.Bech()}
+	switch mut {
+	case "wrong-order":
+		f.OrderId = ord.Id + 1
+	case "wrong-data":
+		f.DataId = "nodata"
+	case "wrong-shard":
+		f.ShardId = sh.Id + 100
+	case "wrong-provider":
+		f.Provider = w.providers[(rng.Intn(len(w.providers)))].Bech()
+	}
+	provider := sh.Sp
+	switch rng.Intn(4) {
+	case 0, 1:
+		w.r.ReportFaults(reporter, provider, []*saotypes.Fault{f, f})
+	case 2:
+		// the accused declares recovery (commit must match for recovery)
+		f.CommitId = ord.Commit
+		sp := w.acctByAddr(sh.Sp)
+		if sp != nil && mut == "" {
+			reporter = sp
+		}
+		w.r.RecoverFaults(reporter, provider, []*saotypes.Fault{f})
+	default:
+		f.CommitId = ord.Commit
+		w.r.RecoverFaults(reporter, provider, []*saotypes.Fault{f})
+	}
+}
+
 func (w *saoWorld) nextScheduled() int64 {
 	ctx := w.c.deliverCtx()
 	best := int64(-1)
@@ -545,7 +602,9 @@ func runSaoHistory(r *Recorder, rng *rand.Rand, accts []*Account, nOps int, long
 				w.ready(weighted(rng, []string{"attacker"}, 20))
 			case x < 91:
 				w.migrate(weighted(rng, []string{"impersonate"}, 15))
-			case x < 96:
+			case x < 94:
+				w.faults(weighted(rng, []string{"ordinary-node", "non-node", "wrong-order", "wrong-data", "wrong-shard", "wrong-provider"}, 35))
+			case x < 97:
 				r.ClaimReward(w.providers[rng.Intn(len(w.providers))])
 			default:
 				p := w.providers[rng.Intn(len(w.providers))]
